@@ -362,6 +362,140 @@ func TestC32(t *testing.T) {
 			r.Sample(map[string]any{"source": s.name, "json": string(doc)})
 		}
 	}
+	// (c) one extension at a time: every (type, body) pair harvested from parrot,
+	// randomized, generated-custom and harness-written foreign hellos is put into a small
+	// fixed base hello written by the harness' own encoder, so that an extension whose host
+	// hello is not representable for an unrelated reason (a signature scheme without a
+	// dictionary name, say) is still compared on its own.
+	{
+		type tb struct {
+			t uint16
+			b string
+		}
+		harvest := map[tb]bool{}
+		var order []tb
+		add := func(raw []byte) {
+			ch, err := wire.ParseClientHello(raw)
+			if err != nil {
+				return
+			}
+			for _, e := range ch.Exts {
+				if wire.IsGREASE(e.Type) {
+					continue
+				}
+				k := tb{e.Type, string(e.Data)}
+				if !harvest[k] {
+					harvest[k] = true
+					order = append(order, k)
+				}
+			}
+		}
+		for _, s := range srcs {
+			if raw, _, err, _ := buildHello(&tls.Config{ServerName: "example.test", OmitEmptyPsk: true}, s.id, nil); err == nil {
+				add(raw)
+			}
+		}
+		for i := 0; i < mon.Pick(200, 5000); i++ {
+			rg := Sub("C32harvest", i)
+			msg, _ := ForeignHello(rg, "example.test")
+			add(msg)
+			spec, _ := GenSpec(rg, GenOpts{})
+			if raw, _, err, _ := buildHello(&tls.Config{ServerName: "example.test", OmitEmptyPsk: true}, tls.HelloCustom, func(u *tls.UConn) error { return u.ApplyPreset(spec) }); err == nil {
+				add(raw)
+			}
+		}
+		baseExts := func() []wire.Ext {
+			return []wire.Ext{
+				{Type: wire.ExtSNI, Data: vec16(append([]byte{0}, vec16([]byte("example.test"))...))},
+				{Type: wire.ExtEMS},
+				{Type: wire.ExtRenegotiationInfo, Data: []byte{0}},
+				{Type: wire.ExtSupportedGroups, Data: vec16(u16be(0x001d, 0x0017))},
+				{Type: wire.ExtECPointFormats, Data: vec8([]byte{0})},
+				{Type: wire.ExtSigAlgs, Data: vec16(u16be(0x0403, 0x0804, 0x0401))},
+				{Type: wire.ExtALPN, Data: vec16(append(vec8([]byte("h2")), vec8([]byte("http/1.1"))...))},
+			}
+		}
+		typesCompared := map[uint16]bool{}
+		perType := map[uint16]int{}
+		for idx, k := range order {
+			if perType[k.t] >= mon.Pick(6, 60) {
+				continue
+			}
+			perType[k.t]++
+			rg := Sub("C32one", idx)
+			var exts []wire.Ext
+			for _, e := range baseExts() {
+				if e.Type != k.t {
+					exts = append(exts, e)
+				}
+			}
+			pos := rg.Intn(len(exts) + 1)
+			exts = append(exts[:pos], append([]wire.Ext{{Type: k.t, Data: []byte(k.b)}}, exts[pos:]...)...)
+			if k.t == wire.ExtKeyShare || k.t == wire.ExtSupportedVersions || k.t == wire.ExtPSKModes {
+				// TLS 1.3 extensions come as a family
+				exts = setExt(exts, wire.ExtSupportedVersions, vec8(u16be(0x0304, 0x0303)))
+			}
+			hello := &wire.ClientHello{Version: 0x0303, Random: randBytes(rg, 32), SessionID: randBytes(rg, 32), Suites: []uint16{0x1301, 0xc02b, 0xc02f}, Compression: []byte{0}}
+			raw := marshalCH(hello, exts, true)
+			ch, err := wire.ParseClientHello(raw)
+			if err != nil {
+				continue // a body that is only valid in its original context
+			}
+			doc, ok, why := renderJSON(ch)
+			if !ok {
+				r.Count("single_ext_not_representable", 1)
+				r.Case("nr1|"+why, false)
+				continue
+			}
+			f := &tls.Fingerprinter{}
+			specR, errR := f.FingerprintClientHello(recordOf(raw))
+			var specJ tls.ClientHelloSpec
+			errJ := json.Unmarshal(doc, &specJ)
+			if errR != nil || errJ != nil {
+				// an importer refusing the extension is not this property's business, but the
+				// two importers disagreeing on whether the name / code point exists is
+				if (errR == nil) != (errJ == nil) {
+					r.Count("single_ext_one_importer_refuses", 1)
+				} else {
+					r.Count("single_ext_both_importers_refuse", 1)
+				}
+				continue
+			}
+			build := func(sp *tls.ClientHelloSpec) (*wire.ClientHello, error) {
+				b, _, err, _ := buildHello(&tls.Config{ServerName: "example.test", OmitEmptyPsk: true}, tls.HelloCustom, func(u *tls.UConn) error { return u.ApplyPreset(sp) })
+				if err != nil {
+					return nil, err
+				}
+				return wire.ParseClientHello(b)
+			}
+			chJ, e1 := build(&specJ)
+			chR, e2 := build(specR)
+			if e1 != nil || e2 != nil {
+				if (e1 == nil) != (e2 == nil) {
+					r.Violation(map[string]string{"kind": "single_ext_build_differs", "ext": fmt.Sprint(k.t)}, fmt.Sprintf("extension %d: the JSON import builds (%v) but the raw import does not (%v), or vice versa", k.t, e1, e2), map[string]any{"json": string(doc), "raw": mon.Hex(raw)})
+				}
+				continue
+			}
+			nj, nr := NormHello(chJ, NormOpts{}), NormHello(chR, NormOpts{})
+			nj = nj[strings.Index(nj, ";cs="):]
+			nr = nr[strings.Index(nr, ";cs="):]
+			typesCompared[k.t] = true
+			r.Count("single_ext_hellos_compared", 1)
+			r.Case(fmt.Sprintf("json1|%d|%s", k.t, nr), true)
+			if nj != nr {
+				r.Violation(map[string]string{"kind": "json_vs_raw_differ", "src": fmt.Sprintf("single-extension-%d", k.t)},
+					fmt.Sprintf("extension %d (%s): hello from the JSON import differs from the raw import: %s", k.t, dicttls.DictExtTypeValueIndexed[k.t], diffNorm(nj, nr)), map[string]any{"json": string(doc), "raw": mon.Hex(raw)})
+			}
+		}
+		r.Count("single_ext_types_compared", int64(len(typesCompared)))
+		var tl []string
+		for t := range typesCompared {
+			tl = append(tl, fmt.Sprint(t))
+		}
+		sort.Strings(tl)
+		r.Note("extension types compared one at a time: " + strings.Join(tl, " "))
+		r.Floor("single_ext_types_compared", 20)
+	}
 	r.Count("json_hellos_compared", int64(representable))
 	r.Floor("json_hellos_compared", 50)
 	r.Floor("dict_entries", 500)
